@@ -98,4 +98,57 @@ theorem parseSeq_spells (env : Env R) (hd : env.decrypt = none) (items : List (I
     have hrec := ih hsz g' rest (pos + g0.length + tx.length) fuel hrest hg' hs2 hah2 (by omega)
     simp only [List.length_cons, parseSeq, parseWithLexer, hv, Out.bind_ok, hrec, seqExpected]
 
+
+/-! ### the fuel of the public entry points suffices -/
+
+open PdfSyntax (SpellsElems SpellsEntries needL needE)
+
+mutual
+theorem need_bound (pr : List UInt8 → Option R) (v : Prim R) : ∀ txt, Spells pr v txt → need v + 1 ≤ 3 * txt.length := by
+  intro txt h
+  have hne := spells_ne_nil pr v txt h
+  have hlen : 1 ≤ txt.length := by cases txt with | nil => exact absurd rfl hne | cons => simp
+  cases v with
+  | arr xs =>
+    simp only [Spells] at h
+    obtain ⟨g, r, rfl, _, hr⟩ := h
+    have := needL_bound pr xs r hr
+    simp [need]; omega
+  | dict kvs =>
+    simp only [Spells] at h
+    obtain ⟨g, r, rfl, _, hr⟩ := h
+    have := needE_bound pr kvs r hr
+    simp [need]; omega
+  | stream info inner => simp [Spells] at h
+  | null => simp [need]; omega
+  | int i => simp [need]; omega
+  | real r => simp [need]; omega
+  | bool b => simp [need]; omega
+  | str s => simp [need]; omega
+  | name s => simp [need]; omega
+  | ref a b => simp [need]; omega
+theorem needL_bound (pr : List UInt8 → Option R) (xs : List (Prim R)) : ∀ r, SpellsElems pr xs r → needL xs ≤ 3 * r.length := by
+  intro r h
+  cases xs with
+  | nil => simp only [SpellsElems] at h; subst h; simp [needL]
+  | cons x xs =>
+    simp only [SpellsElems] at h
+    obtain ⟨tx, g, r', rfl, hx, _, hr', _⟩ := h
+    have h1 := need_bound pr x tx hx
+    have h2 := needL_bound pr xs r' hr'
+    simp [needL]; omega
+theorem needE_bound (pr : List UInt8 → Option R) (kvs : List (List UInt8 × Prim R)) :
+    ∀ r, SpellsEntries pr kvs r → needE kvs ≤ 3 * r.length := by
+  intro r h
+  cases kvs with
+  | nil => simp only [SpellsEntries] at h; subst h; simp [needE]
+  | cons kv kvs =>
+    obtain ⟨k, v⟩ := kv
+    simp only [SpellsEntries] at h
+    obtain ⟨kb, g1, tv, g2, r', rfl, _, _, _, hv, _, hr', _⟩ := h
+    have h1 := need_bound pr v tv hv
+    have h2 := needE_bound pr kvs r' hr'
+    simp [needE]; omega
+end
+
 end PdfLex
